@@ -548,12 +548,13 @@ const maxExhaustive = 5
 func TestCheck(t *testing.T) {
 	cfg := mon.Load("C07")
 	rep := mon.NewReporter(cfg, "exploration",
-		"one case = one generated well-formed construction (typed lambdas, pass-through nodes, keyed ports, typed branches, state handlers over a 12-type universe that includes a named map and a named slice next to their unnamed literal forms, types partly hostile incl. such near misses) added in every order of its edge/branch calls (≤5 calls: all orders, else 200 random), each order 3×, every accepted graph run in Invoke and Stream with every legal dynamic input value × branch choices × emitted dynamic values; non-trivial = at least one order compiled and the construction contains a pass-through node, a branch or a may-assignable connection",
+		"one case = one generated well-formed construction over a 12-type universe (concrete, pointer, struct, map, slice, any, two interfaces, a named map and a named slice next to their unnamed literal forms; types partly hostile incl. such near misses) built through one of three front ends: Graph (edge/branch calls in every order for ≤5 calls, else 200 random orders, nodes up-front / reversed / lazily, each order 3×), Chain (nodes, Parallels with keyed lambdas / nested graphs / pass-through nodes, ChainBranches; 6 identical builds) and Workflow (inputs with and without field mappings from/to struct fields and map keys, AddBranch with data-only inputs of its ends, ≤12 orders × 4 identical builds because Compile resolves the declarations in map order). Node kinds: invokable and transformable lambdas, nested graphs, pass-through nodes, each with/without input and output keys and with typed state pre/post handlers in value and stream form that hand on what they received, another value of their declared type or a nil interface value; typed value/stream branches on START, nodes and pass-through nodes. Every accepted construction is run in Invoke and Stream with every legal dynamic input value × branch choices × emitted dynamic values (nil interface values between interface-typed ends included, never as a graph's final output); non-trivial = at least one order compiled and the construction contains a pass-through node, a branch or a may-assignable connection",
 		[]string{
 			"node, condition and handler bodies never fail by themselves and only forward errors they receive from the framework's streams, so every failure of a run over a compiled graph is the framework's",
-			"the reference lattice is what a type assertion accepts — identical type, or Implements for an interface target (must / may / must-not); distinct types with the same underlying type (map[string]any vs Vars, []string vs Names) are must-not, unlike reflect's AssignableTo; a connection is judged between the declared types of its two ends, a pass-through node carrying the type eino reports for it in GraphInfo provided that type is the type of a typed neighbour of the node's pass-through component (otherwise the node is transparent)",
+			"the reference lattice is what a type assertion accepts — identical type, or Implements for an interface target (must / may / must-not); distinct types with the same underlying type (map[string]any vs Vars, []string vs Names) are must-not, unlike reflect's AssignableTo; a nil interface value is assignable to every interface type and to no other; a connection is judged between the declared types of its two ends, a pass-through node carrying the type eino reports for it in GraphInfo provided that type is the type of a typed neighbour of the node's pass-through component (otherwise the node is transparent); a keyed side of a pass-through node has the declared type map[string]any",
 			"only soundness is judged: accepted ⇒ no panic, an ordinary error exactly when a dynamic value is not assignable across a may-connection; rejections of constructions the order-independent (transparent) reference considers well typed are only counted (info_completeness_*)",
-			"a nil interface value has no dynamic type and is not generated; runs whose failure would be legitimate for another reason (input key absent from the map, several non-map chunks to concatenate) are not generated or counted as unjudged",
+			"one reference for the three front ends: a chain is a graph built in a dictated order; a workflow connection is an edge that may carry a field mapping (checked field against field; eino's mapping checkers use Go assignability, so a named/unnamed twin or a nil for a nillable kind crossing a mapping is unjudged); a workflow branch selects who runs, the data connections from its source to all its ends exist regardless: a mismatch on the connection to an end that does not run may be reported (value form) or not (stream form), never as a panic",
+			"a nil value is never let through as the final output of a graph or nested graph (the engine reads it as 'no result yet'): such runs are not made; runs whose failure would be legitimate for another reason (input or mapped key absent from the map, several non-map chunks to concatenate) are not generated or counted as unjudged",
 		}, cfg.Pick(350, 6000))
 	defer func() {
 		if err := rep.Flush(); err != nil {
